@@ -70,6 +70,59 @@ def act(cls, extra_locals=None, params=None, **kw):
 DEG = {"activation_degree": "X Rat"}
 HEAP = {"activated": "Nat", "activation_degree": "X Rat", "index": "Nat", "activate": "List (X Rat × Nat)"}
 
+# ---- Engine.is_ready (C19): the abstract configuration of Op/IsReady.lean
+RDY = "Op.Ready"
+RDY_ERR = "{{{{ σ with errors := σ.errors ++ [Op.Ready.Err.{0}] }}}}"
+READY_STMT = [
+    ("errors.append(f\"Engine '{self.name}' does not have any input variables\")", RDY_ERR.format("noInputs"), True),
+    ("errors.append(f\"Engine '{self.name}' does not have any output variables\")", RDY_ERR.format("noOutputs"), True),
+    ("errors.append(f\"Engine '{self.name}' does not have any rule blocks\")", RDY_ERR.format("noBlocks"), True),
+    # a component is named by its position (`variable` is a Lean keyword: the translator renames it `variable_`)
+    ("errors.append(f\"Output variable '{variable_.name}' does not have any terms\")", RDY_ERR.format("noTerms σ.variable_.1"), True),
+    ("errors.append(f\"Output variable '{variable_.name}' does not have any defuzzifier\")", RDY_ERR.format("noDefuzzifier σ.variable_.1"), True),
+    ("errors.append(f\"Output variable '{variable_.name}' does not have any aggregation operator\")",
+     RDY_ERR.format("noAggregation σ.variable_.1"), True),
+    ("errors.append(f'Rule block {name_or_index} does not have any rules')", RDY_ERR.format("noRules σ.index"), True),
+    ("errors.append(f\"Rule block {name_or_index} does not have any conjunction operator and is needed by {conjunction_needed} rule{'s'[:conjunction_needed ^ 1]}\")",
+     RDY_ERR.format("noConjunction σ.index"), True),
+    ("errors.append(f\"Rule block {name_or_index} does not have any disjunction operator and is needed by {disjunction_needed} rule{'s'[:disjunction_needed ^ 1]}\")",
+     RDY_ERR.format("noDisjunction σ.index"), True),
+    ("errors.append(f\"Rule block {name_or_index} does not have any implication operator and is needed by {implication_needed} rule{'s'[:implication_needed ^ 1]}\")",
+     RDY_ERR.format("noImplication σ.index"), True),
+]
+READY_EXT = [
+    ("errors is None", "errors0.isNone", "Bool", True),
+    ("self.input_variables", "e.inputs", "Nat", True),                                # only its truth value is used
+    ("self.output_variables", "(Op.Ready.enumFrom 0 e.outputs)", f"List (Nat × {RDY}.Output)", True),   # (position, variable)
+    ("self.rule_blocks", "e.blocks", f"List {RDY}.Block", True),
+    ("variable_.terms", "σ.variable_.2.hasTerms", "Bool", True),
+    ("isinstance(variable_.defuzzifier, IntegralDefuzzifier)", "(σ.variable_.2.defuzz == .integral)", "Bool", True),
+    ("variable_.defuzzifier", "(σ.variable_.2.defuzz != .none)", "Bool", True),
+    ("variable_.aggregation", "σ.variable_.2.aggr", "Bool", True),
+    ("rule_block.rules", "σ.rule_block.rules", f"List {RDY}.Rule", True),
+    ("rule_block.conjunction", "σ.rule_block.conj", "Bool", True),
+    ("rule_block.disjunction", "σ.rule_block.disj", "Bool", True),
+    ("rule_block.implication", "σ.rule_block.impl", "Bool", True),
+    ("f' {Rule.AND} ' in rule.antecedent.text", "σ.rule.textAnd", "Bool", True),
+    ("f' {Rule.OR} ' in rule.antecedent.text", "σ.rule.textOr", "Bool", True),
+    ("rule.is_loaded()", "σ.rule.loaded", "Bool", True),
+    ("rule.consequent.conclusions", "σ.rule.concls", "List Nat", True),               # the variable each one refers to
+    ("isinstance(consequent.variable, OutputVariable)", "(e.outputs[σ.consequent]?).isSome", "Bool", True),
+    ("isinstance(consequent.variable.defuzzifier, IntegralDefuzzifier)", "(Op.Ready.isIntegral e.outputs σ.consequent)", "Bool", True),
+]
+READY_PROFILE = {
+    "name": "Engine_is_ready", "module": "fuzzylite.engine", "object": "Engine.is_ready", "file": "CodeReady",
+    "params": [("e", f"{RDY}.Engine"), ("errors0", f"Option (List {RDY}.Err)")],
+    "init": {"errors": "(errors0.getD [])"},
+    "ignore_locals": ["name_or_index"],
+    "locals": {"errors": f"List {RDY}.Err", "variable": f"Nat × {RDY}.Output", "index": "Nat", "rule_block": f"{RDY}.Block",
+               "conjunction_needed": "Nat", "disjunction_needed": "Nat", "implication_needed": "Nat",
+               "rule": f"{RDY}.Rule", "mamdani_consequents": "Nat", "consequent": "Nat"},
+    "ret": "Bool",
+    "externals": READY_EXT, "stmt_externals": READY_STMT,
+}
+# ---- end Engine.is_ready
+
 PROFILES = [
     {
         "name": "Rule_parse", "module": "fuzzylite.rule", "object": "Rule.parse", "file": "CodeRule",
@@ -100,10 +153,12 @@ PROFILES = [
     act("Highest", HEAP, [("n", "Nat")], fuel={2: "σ.activate.length + 1"}),
     act("Lowest", HEAP, [("n", "Nat")], fuel={2: "σ.activate.length + 1"}),
     act("Proportional", dict(DEG, sum_degrees="X Rat", activate="List Nat", ref="Nat"), loop_rename={2: {"rule": "ref"}}),
+    READY_PROFILE,
 ]
 
 FILES = {
     "CodeRule": {"imports": ["FlVerif.Op.PyExt"]},
     "CodeFunction": {"imports": ["FlVerif.Op.PyExt"]},
     "CodeActivation": {"imports": ["FlVerif.Op.PyExtAct"]},
+    "CodeReady": {"imports": ["FlVerif.Op.PyExtReady"]},
 }
